@@ -39,6 +39,17 @@ CLAIMED = {
         technique="contract-based: run-time contracts on exhaustive small scopes and seeded random tables (bounded stand-in); "
                   "deductive obligations where listed in evidence",
         design_ref="8 (C07)"),
+    "C14": dict(
+        category="other",
+        text="Run-time contracts (bounded stand-in) on the real segfilters.cn/ci/sem/ampdel against a run-merging oracle "
+             "written from the statement (maximal runs of equal level per chromosome incl. allele-specific cn with missing "
+             "values; first start, last end, summed probes and weight, weight-averaged log2; conservation), and on "
+             "do_call(filters=...) for every ordered list of distinct filters with at most one of ci/sem x calling method "
+             "(ci/sem first, then the given order; spans and probes conserved; caller's list unchanged).",
+        note="pandas groupby.apply plumbing is outside the deductive subset; deductive kernels are listed in evidence when present",
+        technique="contract-based: run-time contracts with a statement-derived oracle on seeded random segment tables "
+                  "(bounded stand-in); deductive obligations where listed in evidence",
+        design_ref="8 (C14)"),
     "C19": dict(
         category="other",
         text="Deductive: _width2wing (window half-width always in [1, n-1]) discharged by SMT for all lengths and widths. "
